@@ -32,6 +32,7 @@
 #include <numeric>
 #include <vector>
 #include <string>
+#include <stdexcept>
 #include "soplex/spxdefines.h"
 
 #ifdef SOPLEX_WITH_GMP
@@ -153,6 +154,9 @@ inline int orderOfMagnitude(Rational& r)
       return (int) log10((double)numerator(r)) - (int) log10((double)denominator(r));
 }
 
+/* largest absolute value of a decimal exponent that ratFromString() converts */
+#define SOPLEX_RATIONAL_MAXEXPONENT 100000
+
 /* find substring, ignore case */
 static
 std::string::const_iterator findSubStringIC(const std::string& substr, const std::string& str)
@@ -206,6 +210,10 @@ inline Rational ratFromString(const char* desc)
             int exponentidx = int(it - s.begin());
             mult = std::stoi(s.substr(exponentidx + 1, s.length()));
             s = s.substr(0, exponentidx);
+
+            // the power of ten is computed exactly, bound its size
+            if(mult > SOPLEX_RATIONAL_MAXEXPONENT || mult < -SOPLEX_RATIONAL_MAXEXPONENT)
+               throw std::out_of_range("exponent of rational number out of range");
          }
 
          // std::cout << s << std::endl;
@@ -244,7 +252,19 @@ inline Rational ratFromString(const char* desc)
          // the conversion from a string does not reduce the fraction
          res = Rational(numerator(res), denominator(res));
 
-         res *= pow(10, mult);
+         // scale by the exact power of ten (a double represents neither negative powers nor powers above 1e22)
+         if(mult != 0)
+         {
+            Integer base = 10;
+            Rational factor;
+
+            factor = boost::multiprecision::pow(base, (unsigned int)(mult > 0 ? mult : -mult));
+
+            if(mult > 0)
+               res *= factor;
+            else
+               res /= factor;
+         }
       }
    }
 
